@@ -24,11 +24,27 @@ def main():
     SH_QB, SH_QQ, SH_IA = Float[A, "?b"], Float[A, "?q"], Int[A, "a"]
     PT_A_T, PT_QB_T, PT_QQ_S, PT_IA = PyTree[SH_A, "T"], PyTree[SH_QB, "T"], PyTree[SH_QQ, "S"], PyTree[SH_IA]
 
+    # print_bindings() writes to sys.stdout; contextlib.redirect_stdout swaps that GLOBAL and is not usable from threads that are
+    # preempted in the middle of it: route per thread instead
+    _tl = threading.local()
+    _real = sys.stdout
+
+    class Router:
+        def write(self, txt):
+            b = getattr(_tl, "buf", None)
+            return b.write(txt) if b is not None else _real.write(txt)
+
+        def flush(self):
+            _real.flush()
+    sys.stdout = Router()
+
     def B():
-        s = io.StringIO()
-        with contextlib.redirect_stdout(s):
+        _tl.buf = io.StringIO()
+        try:
             print_bindings()
-        return s.getvalue().strip().replace("\n", ";")
+            return _tl.buf.getvalue().strip().replace("\n", ";")
+        finally:
+            _tl.buf = None
 
     def safe(f):
         try:
@@ -83,7 +99,23 @@ def main():
             res.append(B())
         return res
 
-    WL = {"pytree": wl_pytree, "array": wl_array, "calls": wl_calls, "question": wl_question}
+    SH_M = Float[A, "m"]
+
+    def wl_nested():
+        # context blocks nested two deep: the inner one is entered while this thread's context stack already has a frame
+        res = []
+        with jaxtyped("context"):
+            res.append(safe(lambda: isinstance(np.zeros(5), SH_M)))
+            with jaxtyped("context"):
+                res.append(safe(lambda: isinstance(np.zeros(6), SH_M)))
+                res.append(B())
+            res.append(safe(lambda: isinstance(np.zeros(6), SH_M)))        # back in the outer block: m=5, so False
+            res.append(B())
+        res.append(B())
+        res.append(safe(lambda: (isinstance(np.zeros(3), SH_M), isinstance(np.zeros(4), SH_M))))
+        return res
+
+    WL = {"pytree": wl_pytree, "array": wl_array, "calls": wl_calls, "question": wl_question, "nested": wl_nested}
 
     class Sched:
         def __init__(self, n, schedule):
@@ -112,7 +144,18 @@ def main():
             finally:
                 sys.settrace(None); self.done[tid] = True; self.ctl.release()
 
-        def run(self, fns):
+        def run(self, fns, owner_open=False):
+            # owner_open: the threads are created and run while the MAIN thread is inside its own context block holding
+            # bindings of the very names the workloads use (sizes no workload uses); the main thread's bindings must be the
+            # same afterwards and no worker may see them
+            if owner_open:
+                with jaxtyped("context"):
+                    isinstance(np.zeros(11), SH_A); isinstance(np.zeros(13), SH_M); isinstance(np.zeros((11, 17)), Float[A, "a n"]); isinstance(np.zeros((19,)), Float[A, "k"])
+                    isinstance((np.zeros(11), np.zeros(11)), PT_A_T)
+                    before = B()
+                    out = self.run(fns)
+                    self.owner = [before, B()]
+                return out
             n = len(fns); out = [None] * n
             # every thread starts from a COPY of the main thread's contextvars context, taken after the main thread has already
             # used jaxtyping (the solo runs below): what asyncio.to_thread / copy_context().run do
@@ -132,10 +175,12 @@ def main():
             return out
     solo = {k: f() for k, f in WL.items()}
     res = []
-    for names, schedule in req["schedules"]:
+    for si, (names, schedule) in enumerate(req["schedules"]):
         s = Sched(len(names), schedule)
-        out = s.run([WL[n] for n in names])
-        res.append({"out": out, "solo": [solo[n] for n in names], "steps": s.steps})
+        s.owner = None
+        out = s.run([WL[n] for n in names], owner_open=(si % 2 == 1))
+        res.append({"out": out, "solo": [solo[n] for n in names], "steps": s.steps, "owner": s.owner})
+    sys.stdout = _real
     sys.stdout.write(json.dumps(res) + "\n")
 
 
